@@ -541,7 +541,22 @@ func c16kGenCase(t *rapid.T) c16kCase {
 		c.Phase = rapid.IntRange(0, c16RingSize-1).Draw(t, "phase")
 	}
 	c.Prefix = rapid.SampledFrom([]string{"", "#", "[hal] vt(0.0.1): ", "prefix> "}).Draw(t, "prefix")
-	c.Pre = rapid.SliceOfN(rapid.Custom(c16kGenOp(c16kPreKinds)), 0, 12).Draw(t, "pre")
+	if rapid.IntRange(0, 7).Draw(t, "boundary") == 0 {
+		// aim at the capacity boundary: plain writes whose sizes add up to 2047-1, 2047 or 2047+1
+		c.Pre = rapid.SliceOfN(rapid.Custom(c16kGenOp([]string{"printf-bytes", "printf-str", "write", "fprintf-sink"})), 0, 4).Draw(t, "pre")
+		sum := 0
+		for i := range c.Pre {
+			if c.Pre[i].N > 600 {
+				c.Pre[i].N = 600
+			}
+			sum += c.Pre[i].N
+		}
+		if rest := c16RingCap + rapid.IntRange(-1, 1).Draw(t, "delta") - sum; rest > 0 {
+			c.Pre = append(c.Pre, c16kOp{Kind: rapid.SampledFrom([]string{"printf-bytes", "printf-lit", "write"}).Draw(t, "lastkind"), N: rest})
+		}
+	} else {
+		c.Pre = rapid.SliceOfN(rapid.Custom(c16kGenOp(c16kPreKinds)), 0, 12).Draw(t, "pre")
+	}
 	c.Post = rapid.SliceOfN(rapid.Custom(c16kGenOp(c16kPostKinds)), 0, 5).Draw(t, "post")
 	budget := 10000
 	c16kClamp(c.Pre, &budget)
